@@ -77,6 +77,16 @@ def leave_cases(tier: str) -> list[dict[str, Any]]:
                                 out.append({"flow": "leave", "level": level, "sec0": sec0, "skip": skip, "supply": supply,
                                             "sleep": sleep, "ecu": {"reset": reset, "down": down, "drop": drop, "dsc1": dsc1},
                                             "origin": "leave/product"})
+    if tier == "thorough":  # silences around the 10 s limit of wait_for_ecu, other sleep values
+        for supply in (False, True):
+            for sleep in (None, 0.0, 0.7):
+                for reset in ("pos", "neg"):
+                    for down in (400, 700, 9400, 9600, 10000, 10400, 25000):
+                        for drop in (False, True):
+                            for dsc1 in ("pos", "neg", "silent"):
+                                out.append({"flow": "leave", "level": 2, "sec0": 5, "skip": False, "supply": supply,
+                                            "sleep": sleep, "ecu": {"reset": reset, "down": down, "drop": drop, "dsc1": dsc1},
+                                            "origin": "leave/edge"})
     if tier == "quick":  # the second argument variant on a third of the product
         for c in list(out)[::3]:
             out.append({**c, "level": 3, "sec0": -1, "skip": True})
